@@ -366,6 +366,13 @@ def run(ctx):
             key = f'{api}: {clause.replace("_", " ")}'
         ctx.violation(key, {'name': name, 'event': ev, 'info': info})
 
+    # ---------------------------------------------------------------- growth (hosted here for its time budget):
+    # the bundled quadrature tables as symmetric measures, the disk x line product construction, the node-count
+    # rule of Cylinder.quadrature and the labelled layout of compute_transmission_map
+    # (spec/absorption/Growth_*.tla; deviations are GROWTH-FINDINGs, not violations of C20)
+    from .. import lib_growth_absorption
+    lib_growth_absorption.run(ctx)
+
 
 def _trace_control(ctx, events, rejected, full):
     """Vacuity guard of the trace specification: accepted events corrupted in one field must be rejected by
@@ -434,6 +441,7 @@ def _near_class(name, tb, api):
     if any(name.endswith(k) for k in names):
         return 'tabulated name with characters prepended'
     return 'other'
+
 
 
 META = {
